@@ -461,7 +461,10 @@ def correspond(run, corr, parts=PARTS):
     reqs = requests(run, parts, scale)
     impl = vf.run_lines([exe], reqs)
     model = vf.run_driver(reqs)
-    corr.compare(reqs, impl, model)
+    # `CRASH` from the model = the unchanged code's behaviour on this request is undefined (it only arises for requests of
+    # the L1 side outside the phyif contract, e.g. a burst request longer than the datagram buffer; for datagrams arriving
+    # on the sockets trxc_rsp_no_crash / trxd_rx_in_bounds prove it impossible): whatever the code does there refines it
+    corr.compare(reqs, impl, model, model_ub=lambda b: b == "CRASH")
     for r, a in zip(reqs, impl):
         v = r.split(" ", 1)[0]
         corr.count(r, "%s:%s" % (v, outcome_class(v, a)))
